@@ -1,8 +1,17 @@
 #!/usr/bin/env python3
-"""setup: nothing is built ahead of time (every check regenerates its encoding from /repo); verify tools exist."""
-import shutil, sys, subprocess
-missing = [t for t in ('clang++-14', 'llvm-link-14', 'cbmc', 'goto-cc', 'g++', 'gcc') if not shutil.which(t)]
+"""setup: nothing is built ahead of time (every check regenerates its encoding from /repo); verify the tools exist."""
+import shutil, sys, subprocess, tempfile, os
+missing = [t for t in ('clang++-14', 'llvm-link-14', 'cbmc', 'goto-cc', 'g++', 'gcc', 'nm', 'objcopy') if not shutil.which(t)]
 if missing:
     print('missing tools: ' + ', '.join(missing)); sys.exit(1)
 print(subprocess.run(['cbmc', '--version'], capture_output=True, text=True).stdout.strip())
+# the native replay builds with ASan+UBSan: make sure the runtime is there
+d = tempfile.mkdtemp(prefix='verif-setup-', dir=os.path.dirname(os.path.abspath(__file__)))
+try:
+    open(d + '/a.cc', 'w').write('int main(){return 0;}\n')
+    r = subprocess.run(['g++', '-fsanitize=address,undefined', d + '/a.cc', '-o', d + '/a.out'], capture_output=True, text=True)
+    if r.returncode != 0 or subprocess.run([d + '/a.out']).returncode != 0:
+        print('g++ -fsanitize=address,undefined does not work: ' + r.stderr[-500:]); sys.exit(1)
+finally:
+    shutil.rmtree(d, ignore_errors=True)
 print('ok')
